@@ -238,5 +238,85 @@ theorem parse_specEncodeLong (disc pw vid pid : Nat) (hd : disc < 4096) (hp : pw
   simp [b1, b2, b3, b4, b5]
   constructor <;> omega
 
+/-! ## out-of-range fields are refused (G5) -/
+
+/-- the number written in the `len` digits at `off` -/
+def val (ds : List Nat) (off len : Nat) : Nat := decVal ((ds.drop off).take len)
+
+theorem digitsAt_ok (ds : List Nat) (off len : Nat) (h : off + len ≤ ds.length) :
+    digitsAt ds off len = .ok (val ds off len) := by
+  simp only [digitsAt, if_pos h, val]
+
+/-- the field ranges of a v1 manual pairing code (Matter Core 5.1.4.1), on the digit string without
+separators: first digit 0..7 (8 / 9 = a future version), its vid/pid-present bit agrees with the length,
+digits 2..6 ≤ 65535 (two discriminator bits and 14 passcode bits), digits 7..10 ≤ 8191 (13 passcode bits),
+and in the 21-digit form vendor and product id ≤ 65535 -/
+def RangesOk (ds : List Nat) : Prop :=
+  val ds 0 1 ≤ 7 ∧ (val ds 0 1 / 4 = 1 ↔ ds.length = 21) ∧ val ds 1 5 ≤ 65535 ∧ val ds 6 4 ≤ 8191 ∧
+  (ds.length = 21 → val ds 10 5 ≤ 65535 ∧ val ds 15 5 ≤ 65535)
+
+instance (ds : List Nat) : Decidable (RangesOk ds) := inferInstanceAs (Decidable (_ ∧ _))
+
+/-- **a manual pairing code with an out-of-range field is refused with `InvalidData`** — also when its
+check digit is right (with a wrong check digit it is refused by `parse_rejects_bad_check`) -/
+theorem parse_rejects_out_of_range (code ds : List Nat) (hs : strip code [] = .ok ds)
+    (hbad : ¬ RangesOk ds) : parse code = .error .invalidData := by
+  unfold parse
+  simp only [hs, bind, Except.bind, pure, Except.pure, Consts.c17ManualShortLen, Consts.c17ManualLongLen]
+  by_cases h11 : ds.length = 11
+  · have h21 : ¬ ds.length = 21 := by omega
+    simp only [h11, if_true]
+    rw [digitsAt_ok ds 0 1 (by omega), digitsAt_ok ds 1 5 (by omega), digitsAt_ok ds 6 4 (by omega)]
+    simp only [Bool.false_eq_true, if_false]
+    repeat' split
+    all_goals first
+      | rfl
+      | (exfalso; apply hbad; refine ⟨by omega, ?_, by omega, by omega, fun h => absurd h h21⟩
+         simp_all)
+  · by_cases h21 : ds.length = 21
+    · simp only [h21, if_true]
+      rw [digitsAt_ok ds 0 1 (by omega), digitsAt_ok ds 1 5 (by omega), digitsAt_ok ds 6 4 (by omega),
+        digitsAt_ok ds 10 5 (by omega), digitsAt_ok ds 15 5 (by omega)]
+      simp only
+      repeat' split
+      all_goals first
+        | rfl
+        | (exfalso; apply hbad; refine ⟨by omega, ?_, by omega, by omega, fun _ => by omega⟩
+           simp_all)
+    · simp only [h11, h21, if_false]
+
+/-- a code of any other length than 11 / 21 digits is refused -/
+theorem parse_rejects_length (code ds : List Nat) (hs : strip code [] = .ok ds)
+    (h : ds.length ≠ 11 ∧ ds.length ≠ 21) : parse code = .error .invalidData := by
+  unfold parse
+  simp only [hs, bind, Except.bind, pure, Except.pure, Consts.c17ManualShortLen, Consts.c17ManualLongLen, h.1, h.2, if_false]
+
+/-! ## the encoder outside the legal field values -/
+
+/-- **`compute_pairing_code` answers an 11-digit code (no `write_unwrap!` panic) exactly up to
+discriminator 10239 and passcode 163839999** — beyond the legal 12 / 27 bits the code is not a valid v1
+code (the parser refuses it or returns other values), but the `String<10>` does not overflow -/
+theorem encode_ok_of_bounds (disc pw : Nat) (hd : disc < 10240) (hp : pw < 163840000) :
+    ∃ code, encode disc pw = .ok code ∧ code.length = 11 := by
+  have hd1 : disc / 1024 % 256 = disc / 1024 := by omega
+  have hd1b : disc / 1024 < 10 ^ 1 := by omega
+  have hdm : disc % 65536 = disc := by omega
+  have hg2 : disc / 256 % 4 * 16384 + pw % 16384 < 10 ^ 5 := by omega
+  have hg3 : pw / 16384 < 10 ^ 4 := by omega
+  have henc : encode disc pw = finish (fixedDigits 1 (disc / 1024) ++ fixedDigits 5 (disc / 256 % 4 * 16384 + pw % 16384) ++ fixedDigits 4 (pw / 16384)) := by
+    simp only [encode, hd1, hdm, fmtPad, hd1b, hg2, hg3, if_true]
+  generalize hdg : fixedDigits 1 (disc / 1024) ++ fixedDigits 5 (disc / 256 % 4 * 16384 + pw % 16384) ++ fixedDigits 4 (pw / 16384) = digits at henc
+  have hdig : ∀ c ∈ digits, isDigit c = true := by
+    intro c hc
+    rw [← hdg] at hc
+    simp only [List.mem_append] at hc
+    rcases hc with (hc | hc) | hc <;> exact fixedDigits_digits _ _ c hc
+  have hlen : digits.length = 10 := by rw [← hdg]; simp [fixedDigits_length]
+  obtain ⟨k, _, hfin, _⟩ := finish_spec digits hdig hlen
+  exact ⟨digits ++ [48 + k], by rw [henc, hfin], by simp [hlen]⟩
+
+/-- the bounds are sharp: one more and the model answers `panic` (the `heapless::String<10>` overflows in
+`write_unwrap!`); replayed on the real code by the `manual` stream (`rt` with out-of-range arguments) -/
+example : encode 10240 1 = .error .panic ∧ encode 0 163840000 = .error .panic := ⟨rfl, rfl⟩
 
 end Codec.ManualCode
